@@ -113,7 +113,9 @@ type c11Replay struct {
 }
 
 func c11Check(text string, assignKind int, monitor bool, secSecrets []string) (gen string, findings []Finding) {
-	add := func(clause, sig, detail string) { findings = append(findings, Finding{Clause: clause, Sig: sig, Detail: detail}) }
+	add := func(clause, sig, detail string) {
+		findings = append(findings, Finding{Clause: clause, Sig: sig, Detail: detail})
+	}
 	info, err := pipe.LoadInfo(text)
 	if err != nil {
 		chk.Fatalf("C11 base config rejected: %v\n%s", err, text)
@@ -196,13 +198,13 @@ func c11Check(text string, assignKind int, monitor bool, secSecrets []string) (g
 		}
 		// ingestion-relevant settings
 		type ing struct {
-			A, B                model.Duration
-			Path                string
-			Params              interface{}
-			HL, HT              bool
+			A, B                 model.Duration
+			Path                 string
+			Params               interface{}
+			HL, HT               bool
 			SL, TL, LL, LNL, LVL uint
-			BSL                 interface{}
-			MRC                 interface{}
+			BSL                  interface{}
+			MRC                  interface{}
 		}
 		a := ing{oj.ScrapeInterval, oj.ScrapeTimeout, oj.MetricsPath, oj.Params, oj.HonorLabels, oj.HonorTimestamps, oj.SampleLimit, oj.TargetLimit, oj.LabelLimit, oj.LabelNameLengthLimit, oj.LabelValueLengthLimit, oj.BodySizeLimit, oj.MetricRelabelConfigs}
 		b := ing{gj.ScrapeInterval, gj.ScrapeTimeout, gj.MetricsPath, gj.Params, gj.HonorLabels, gj.HonorTimestamps, gj.SampleLimit, gj.TargetLimit, gj.LabelLimit, gj.LabelNameLengthLimit, gj.LabelValueLengthLimit, gj.BodySizeLimit, gj.MetricRelabelConfigs}
